@@ -17,6 +17,12 @@ Proof.
   destruct t as [|x t]; [rewrite !firstn_nil; reflexivity|]. cbn [Nat.add firstn skipn app]. f_equal. apply IH.
 Qed.
 
+Lemma nth_skipn_add {A} (n k : nat) (d : A) : forall t, nth k (skipn n t) d = nth (n + k) t d.
+Proof.
+  induction n as [|n IH]; intro t; [reflexivity|].
+  destruct t as [|x t]; [destruct k; reflexivity|]. cbn [skipn Nat.add nth]. apply IH.
+Qed.
+
 (* the row batching is just a map over the first nbRows*ROWSIZE cells *)
 Lemma reduce_rows_spec n r pm : forall t,
   reduce_rows n r pm t =
@@ -75,7 +81,7 @@ Proof.
   split.
   - intro Hin. assert (Hkn : (k < n)%nat) by lia.
     rewrite app_nth1 by (rewrite map_length, firstn_length; lia).
-    rewrite (nth_indep _ _ 0 (reduce_cell r pm 0)) by (rewrite map_length, firstn_length; lia).
+    rewrite (nth_indep (map (reduce_cell r pm) (firstn n t)) 0 (reduce_cell r pm 0)) by (rewrite map_length, firstn_length; lia).
     rewrite map_nth.
     assert (Hnth : nth k (firstn n t) 0 = nth k t 0).
     { rewrite <- (firstn_skipn n t) at 2. rewrite app_nth1; [reflexivity|]. rewrite firstn_length. lia. }
@@ -100,7 +106,7 @@ Proof.
   - intro Hout. assert (Hkn : (n <= k)%nat) by lia.
     rewrite app_nth2 by (rewrite map_length, firstn_length; lia).
     rewrite map_length, firstn_length. replace (Nat.min n (length t)) with n by lia.
-    rewrite nth_skipn. f_equal. lia.
+    rewrite nth_skipn_add. f_equal. lia.
 Qed.
 
 (* the unsorted mark can never be confused with a surviving index: it is below START *)
@@ -118,7 +124,7 @@ Lemma ldm_reduce_sound_lemma :
 Proof.
   intros t r k Hr Hrange Hk. cbv zeta. unfold ldm_reduceTable.
   split; [apply map_length|].
-  rewrite (nth_indep _ _ 0 (ldm_reduce_cell r 0)) by (rewrite map_length; lia).
+  rewrite (nth_indep (map (ldm_reduce_cell r) t) 0 (ldm_reduce_cell r 0)) by (rewrite map_length; lia).
   rewrite map_nth.
   assert (He : 0 <= nth k t 0 < two32) by (apply Hrange, nth_In; lia).
   unfold ldm_reduce_cell. set (e := nth k t 0) in *.
